@@ -161,6 +161,15 @@ RAGGED_TOTAL_CLAUSE = "Import_Table accepts a ragged file (rows of unequal lengt
 RAGGED_FILL_CLAUSE = "Import_Table accepts a file whose entries do not fill its rows (ragged rows, a blank line between rows) instead of terminating with a diagnostic"
 
 
+def lines_oracle(text, got, out):
+    """Count_Lines is the number of lines of the file: the pieces ended by a line feed, plus a last piece that is not empty
+    (since c62bfe8 Import_Table counts its rows itself, so this helper is judged on its own definition)"""
+    pieces = text.split("\n")
+    n = len(pieces) - 1 if pieces[-1] == "" else len(pieces)
+    if int(got) != n:
+        out.append(fail("prop", "Count_Lines is not the number of lines of the file", "%d lines, Count_Lines = %s, file %r" % (n, got, text[:60])))
+
+
 def import_shape_oracle(op, a, impl, ctx):
     """C10/C20: a file whose rows (lines after the ignored ones, up to the last non-blank line) do not have the same number of entries is
     ragged: Import_Table must terminate with a diagnostic, not reshape it; blank lines at the end are not rows.
@@ -707,7 +716,13 @@ def _one_build(ctx, scratch, cc, opt, names):
     tag_ = "%s%s" % (cc, opt)
     d = os.path.join(scratch, tag_.replace("+", "p"))
     os.makedirs(d, exist_ok=True)
-    inc = ["-I" + os.path.join(ctx["repo"], "include"), "-I" + os.path.join(ctx["libdir"], "gen")]
+    # own copy of the configured header: the shared library cache (libdir/gen) can be rotated away by a concurrent check
+    gen = os.path.join(d, "gen")
+    os.makedirs(gen, exist_ok=True)
+    vin = os.path.join(ctx["repo"], "include", "version.hpp.in")
+    with open(os.path.join(gen, "version.hpp"), "w") as f:
+        f.write(re.sub(r"@[A-Za-z_]+@", "verif", open(vin).read()) if os.path.exists(vin) else "")
+    inc = ["-I" + os.path.join(ctx["repo"], "include"), "-I" + gen]
     obj = os.path.join(d, "nu.o")
     r = subprocess.run([cc, "-std=c++14", opt, "-w"] + inc + ["-c", os.path.join(ctx["repo"], "src", "Natural_Units.cpp"), "-o", obj],
                        stdout=subprocess.PIPE, stderr=subprocess.STDOUT, text=True)
@@ -1058,7 +1073,8 @@ def compare(rq, impl, model, ctx):
         ctx["nontrivial"].add(("fmt", notation_classes(sm), len(sm)))
         return out
     if op == "c20.lines":
-        if int(ti[0]) != int(tm[0]):
+        lines_oracle(unhex(a[0]), ti[0], out)
+        if int(ti[0]) != int(tm[0]) and not out:
             out.append(fail("corr", "Count_Lines differs from the model", "impl %s model %s" % (ti[0], tm[0])))
         return out
     if op == "c20.rtlist":
@@ -1082,6 +1098,7 @@ def compare(rq, impl, model, ctx):
             out = relabel_oor(out, oor)
         hl_ = h.count("\n") + 1 if h else 0
         cmp_bytes(bi, bm, hl_, lambda i, j: (xs[i], u) if i < len(xs) and j == 0 else None, "Export_List", out, ctx)
+        lines_oracle(bi, ti[1], out)
         if ti[1] != tm[1]:
             out.append(fail("corr", "Count_Lines of the exported list", "impl %s model %s" % (ti[1], tm[1])))
         cmp_values([li], [lm], "Import_List", out)
@@ -1103,6 +1120,7 @@ def compare(rq, impl, model, ctx):
             bump(ctx, "requests with a quotient outside the double range")
         cmp_bytes(bi, bm, hl_, lambda i, j: (nonempty[i][j], us[j] if us else 1.0) if i < len(nonempty) and j < len(nonempty[i]) else None,
                   "Export_Table", out, ctx)
+        lines_oracle(bi, ti[1], out)
         if ti[1] != tm[1]:
             out.append(fail("corr", "Count_Lines of the exported table", "impl %s model %s" % (ti[1], tm[1])))
         if tm[2] != "glue1" or tm[3] != "tl1":
